@@ -1796,6 +1796,16 @@ class BaseEvolutionOperations(object):
                 cursor.close()
 
             for index_name, info in six.iteritems(constraints):
+                if ((info.get('check') or info.get('foreign_key')) and
+                    not info.get('index') and
+                    not info.get('unique') and
+                    not info.get('primary_key')):
+                    # CHECK and FOREIGN KEY constraints are not indexes.
+                    # Tracking them as such would make index creation for
+                    # their columns a no-op and index removal try to drop
+                    # the constraint by name.
+                    continue
+
                 results[index_name] = {
                     'unique': info.get('unique', False),
                     'columns': info.get('columns', []),
